@@ -45,6 +45,10 @@ LEVEL_TEXT = (
     "without bit-fields, size, alignment and member offsets computed by the model of CContext equal the System V x86-64 layout "
     "(members at the lowest aligned offset, size rounded up to the alignment; holds after fix 755c1e7); (tables) on every target whose "
     "C front-end builds the IR type of each integer C type has its width and signedness EXCEPT unsigned int on msp430 (open finding). "
+    "(assignments) in the model of gen_binop/gen_inplace_mutation every call and every ++/-- written in an assignment expression "
+    "(= op= ++ -- on array-index, *p and p->f designations, nested, with commas) is emitted exactly once and every assignment stores "
+    "exactly once - the designation of a compound assignment is evaluated once; the model's load/store/call sequence is compared "
+    "verbatim with the real emitted function for every assignment operator on every lvalue form. "
     "sizeof expressions are EXCLUDED from the typing and value theorems: ppci gives them a signed type (open finding, Lean-proved "
     "witnesses). The models are hand-written; their tables are re-checked (decide) against a dump of the live objects on every run, "
     "and they are tied to the source by a differential run that is EXHAUSTIVE over operator x type x type for typing and emitted code "
@@ -196,6 +200,7 @@ def regen(ctx):
 # ----------------------------------------------------------------------------------------------
 # cases
 from . import c01_lib as L  # noqa: E402
+from . import c01_stmt as ST  # noqa: E402
 
 PPCI_TYPES = ["char", "uchar", "short", "ushort", "int", "uint", "long", "ulong", "llong", "ullong"]
 
@@ -386,8 +391,12 @@ def check(ctx):
         sir = k == 0 or rng.random() < (0.25 if thorough else 0.05)
         jobs.append({"src": src, "funcs": funcs, "spec_ir": sir, "native": False, "want_native": thorough and rng.random() < 0.15})
     ltypes, ljobs, lreqs, lsub = layout_prepare(ctx)
-    all_results = L.run_units(jobs + ljobs)
-    results, lresults = all_results[:len(jobs)], all_results[len(jobs):]
+    sjobs = stmt_prepare(ctx)
+    ejobs, ereqs, efam = events_prepare(ctx)
+    all_results = L.run_units(jobs + ljobs + sjobs + ejobs)
+    results, lresults = all_results[:len(jobs)], all_results[len(jobs):len(jobs) + len(ljobs)]
+    sresults = all_results[len(jobs) + len(ljobs):len(jobs) + len(ljobs) + len(sjobs)]
+    eresults = all_results[len(jobs) + len(ljobs) + len(sjobs):]
 
     # a unit that does not compile is split so that the offending function is alone
     def flatten(jobs, results):
@@ -425,8 +434,9 @@ def check(ctx):
         for args in c["argvs"]:
             env = "[" + ",".join(str(a) for a in args) + "]"
             reqs += [f"seval {env} {p}", f"rieval {env} {p}"]
-    all_replies = ctx.driver("C01", reqs + lreqs)
-    replies, lreplies = all_replies[:len(reqs)], all_replies[len(reqs):]
+    all_replies = ctx.driver("C01", reqs + lreqs + ereqs)
+    replies, lreplies = all_replies[:len(reqs)], all_replies[len(reqs):len(reqs) + len(lreqs)]
+    ereplies = all_replies[len(reqs) + len(lreqs):]
     phases["driver"] = round(time.time() - t0, 1)
     t0 = time.time()
 
@@ -537,8 +547,24 @@ def check(ctx):
                 for j, args in enumerate(argvs[: (6 if thorough else 3)]):
                     ir_index.append((len(ir_lines), ci, j))
                     ir_lines.append(f"run {name} 100000 " + " ".join(str(a) for a in args))
+    # the statement-level corpus unit is run by Spec.IR as well (return value, globals, external-call trace)
+    stmt_ir = []
+    if sresults and "error" not in sresults[0] and sresults[0].get("irtext"):
+        ir_lines += ["config ptr 8", "load " + sresults[0]["irtext"], "wf"]
+        for n, f in zip(sjobs[0]["names"], sjobs[0]["fs"]):
+            for k in sjobs[0]["ks"][n][:1]:
+                stmt_ir.append((len(ir_lines), n, f, k))
+                ir_lines.append(f"run {n} 200000 {k}")
     if ir_lines:
         ir_rep = ctx.driver("IR", ir_lines)
+        from . import irrun
+        for pos, n, f, k in stmt_ir:
+            ctx.count("eval_stmt_specir")
+            want = ST.expected(f, k, sresults[0]["order"])
+            got = irrun.strip_steps(ir_rep[pos])[3:]
+            if got != want:
+                ctx.fail("cstmt:specir:" + stmt_diff(got, want), f"{n}({k}u): Spec.IR run of the emitted function gives `{got[:200]}`, "
+                         f"C gives `{want[:200]}`", {"function": ST.c_function(n, f), "k": k})
         already = {i for i, _, _ in failing}
         for pos, ci, j in ir_index:
             c = cases[ci]
@@ -560,6 +586,8 @@ def check(ctx):
     t0 = time.time()
 
     check_tables(ctx)
+    stmt_finish(ctx, sjobs, sresults)
+    events_finish(ctx, ejobs, eresults, ereplies, efam)
     check_layout(ctx, ltypes, lresults, lreplies, lsub)
     phases["layout"] = round(time.time() - t0, 1)
     t0 = time.time()
@@ -997,6 +1025,113 @@ def search(ctx):
 
 def replay(ctx, rp):
     check(ctx)
+
+
+# ----------------------------------------------------------------------------------------------
+STMT_KS = [0, 3, 4000000000, 7, 1, 65535, 12345678, 4294967295]
+
+
+def stmt_prepare(ctx):
+    """assignment operators and ++/-- on lvalues with side effects (see harness/c01_stmt.py): jobs for the front-end pool"""
+    g = ST.Gen(ctx.rng)
+    fs = ST.corpus_functions() + [g.function() for _ in range(160 if ctx.thorough else 10)]
+    nk = 6 if ctx.thorough else 2
+    jobs = []
+    per = 26
+    for k in range(0, len(fs), per):
+        chunk = fs[k:k + per]
+        names = [f"s{k + j}" for j in range(len(chunk))]
+        src = ST.PRELUDE + "\n".join(ST.c_function(n, f) for n, f in zip(names, chunk)) + "\n"
+        ks = {n: [STMT_KS[0]] + ctx.rng.sample(STMT_KS[1:], nk - 1) for n in names}
+        jobs.append({"kind": "stmt", "src": src, "names": names, "ks": ks, "fs": chunk})
+    return jobs
+
+
+def events_prepare(ctx):
+    """every assignment operator and ++/-- on every lvalue form: order and multiplicity of loads, stores and calls"""
+    fam = ST.family(ctx.thorough)
+    jobs, per = [], 120
+    for k in range(0, len(fam), per):
+        names = [f"e{k + j}" for j in range(len(fam[k:k + per]))]
+        src = ST.EV_PRELUDE + "\n".join(ST.family_function(n, st) for n, (_, st) in zip(names, fam[k:k + per])) + "\n"
+        jobs.append({"kind": "events", "src": src, "names": names})
+    return jobs, ["events " + ST.ev_stmt(st) for _, st in fam], fam
+
+
+def events_finish(ctx, jobs, results, replies, fam):
+    k = 0
+    for job, res in zip(jobs, results):
+        for n in job["names"]:
+            label, st = fam[k]
+            model = replies[k][3:]
+            k += 1
+            text = ST.c_stmts([st], "")[0]
+            ctx.count("eval_assign_events")
+            if "error" in res:
+                ctx.fail("cassign:compile:" + res["error"].split(":")[0], f"`{text}` does not compile: {res['error']}", {"c": text})
+                continue
+            real = res["events"].get(n, "(missing)")
+            if real != model:
+                ctx.disagree("assignment-events", {"label": label, "c": text}, real, model)
+            # the property on the real code: calls and stores written once are emitted once
+            want_ext, want_gets, want_st = ST.written_effects(st)
+            w = real.split()
+            got = (w.count("call0"), w.count("call1"), sum(1 for x in w if x.startswith("st")))
+            if got != (want_ext, want_gets, want_st):
+                ctx.fail(f"cassign:multiplicity:{label.split(' ')[0]}",
+                         f"`{text}` writes {want_ext} call(s) of ext, {want_gets} of gets and {want_st} store(s); the emitted code has "
+                         f"{got[0]}, {got[1]} and {got[2]}: events `{real}` (model: `{model}`)", {"label": label, "c": text})
+            elif len(w) > 3:
+                ctx.nontrivial(("assign-events", label))
+
+
+def stmt_diff(got, want):
+    """which observable differs first: ret | globals | trace"""
+    gw, ww = got.split(" "), want.split(" ")
+    for a, b2 in zip(gw, ww):
+        if a != b2:
+            return a.split("=", 1)[0] if "=" in a else "shape"
+    return "shape"
+
+
+def stmt_finish(ctx, jobs, results):
+    for job, res in zip(jobs, results):
+        if "error" in res:
+            ctx.fail("cstmt:compile:" + res["error"].split(":")[0], f"the front-end does not compile a generated program: {res['error']}",
+                     {"source": job["src"]})
+            continue
+        gcc = None
+        if ctx.thorough:
+            out, err = ST.run_gcc(job["src"], job["names"], job["ks"])
+            if out is None:
+                raise common.BrokenCheck("gcc rejected a generated statement-level program: " + err)
+            gcc, gorder = out
+        for n, f in zip(job["names"], job["fs"]):
+            text = ST.c_function(n, f)
+            # static: every call written once in the source is emitted exactly once
+            ctx.count("eval_stmt_static")
+            c = res["calls"][n]
+            for callee, want_n in (("ext", f["ncalls"]), ("gets", f["ngets"])):
+                if c.get(callee, 0) != want_n:
+                    ctx.fail(f"cstmt:call-emitted-{c.get(callee, 0)}-times:{callee}",
+                             f"{n}: the source calls {callee} at {want_n} place(s), the emitted function contains {c.get(callee, 0)} call "
+                             "instruction(s): an operand with a side effect is evaluated more than once (or dropped)", {"function": text})
+            for j, k in enumerate(job["ks"][n]):
+                ctx.count("eval_stmt")
+                want = ST.expected(f, k, res["order"])
+                if gcc is not None:
+                    ctx.count("eval_stmt_gcc")
+                    gw = ST.expected(f, k, gorder)
+                    if gcc[n][j] != gw:
+                        raise common.BrokenCheck(f"the reference evaluator disagrees with gcc on {n}({k}u): gcc `{gcc[n][j]}`, "
+                                                 f"evaluator `{gw}`\n{text}")
+                got = res["rows"][n][j]
+                if got != want:
+                    ctx.fail("cstmt:differs:" + stmt_diff(got, want),
+                             f"{n}({k}u): ppci front-end + ir_to_python gives `{got[:240]}`, C gives `{want[:240]}`",
+                             {"function": text, "k": k}, impl=got, spec=want)
+                elif "trace=-" not in want:
+                    ctx.nontrivial(("stmt", text, k))
 
 
 # ----------------------------------------------------------------------------------------------
